@@ -593,6 +593,7 @@ let lifecycle_case (toks : string list) : string =
    model decides what each event does.  Times in ms. *)
 let client_case (toks : string list) : string =
   match toks with
+  | [ "C"; _threads; _timeout ] -> "C refused=R live=F"   (* outside the model: a connection that is never established carries no request *)
   | [ "L"; _threads; _rounds ] ->
     (* the adversarial interleaving of every round (B finds the connection busy, A completes and finds the queue empty, B is
        queued), then B's second look; C15_no_request_left_queued_beside_an_idle_connection covers all the others *)
